@@ -1120,6 +1120,16 @@ def p14b_merge_rollover_test(ctx):
         return r
     L = cand[0]
     creates = {bb for _, bb, t in calls_in([b], "storage::bitcask::log::create")}
+    try:
+        import k2m
+
+        mm = k2m._model(ctx)
+        if mm.b is b:
+            # every (re)assignment of the data output writer is a rollover, also when the files
+            # are created by a helper
+            creates |= {bi for bi, si in mm.W_assign}
+    except Exception:
+        pass
     tests = []
     for bb in sorted(b.live_blocks()):
         info = b.switch_info(bb)
